@@ -570,9 +570,17 @@ void regfree(regex_t *preg)
 	free(re);
 }
 
+#ifdef NEATVI_VERIF
+int re_verif_depthcut;		/* how many times re_rec() hit NDEPT */
+#endif
+
 static int re_rec(struct regex *re, struct rstate *rs)
 {
 	struct rinst *ri = NULL;
+#ifdef NEATVI_VERIF
+	if (rs->dep >= NDEPT)
+		re_verif_depthcut++;
+#endif
 	if (rs->dep >= NDEPT)
 		return 1;
 	rs->dep++;
